@@ -57,9 +57,20 @@ def run(ctx):
       layer = c01_repotests.run(ctx, d)
     ctx.coverage['traces_validated_against_impl'] = ctx.coverage.get('traces_validated_against_impl', 0) + layer['servicers_recorded']
   c10_namespace.run(ctx)
+  # the Metadata object itself (spec/MetadataStore.tla)
+  import c10_metadata
+  import tlc as _tlc
+  with _tlc.Scratch('c10_md') as d:
+    ml = c10_metadata.run(ctx, d)
+  ctx.coverage['states'] = ctx.coverage.get('states', 0) + ml['states']
+  ctx.coverage['transitions'] = ctx.coverage.get('transitions', 0) + ml['transitions']
+  ctx.coverage['traces_validated_against_impl'] = ctx.coverage.get('traces_validated_against_impl', 0) + ml['replayed']
 
 
 def replay(ctx, case):
+  if case['case'].get('kind') == 'metadata-object':
+    import c10_metadata
+    return c10_metadata.replay(ctx, case['case'])
   if case['case'].get('kind') == 'namespace':
     import c10_namespace
     c10_namespace.run(ctx, only=case['case'])
